@@ -7,6 +7,7 @@ import Rare.Proofs.C04Order
 import Rare.Proofs.C04Fuel
 import Rare.Proofs.C04Micro
 import Rare.Proofs.C04Gz
+import Rare.Proofs.C04Rooms
 import Rare.Model.C06File
 import Rare.Proofs.C06Inflate
 import Rare.Proofs.Batcher
@@ -897,5 +898,43 @@ theorem realises_inhabited (b : Nat) (h : 1 ≤ b) (d : Bytes) (w : Nat) :
     simpa using this
   simp only [Realises, if_true]
   exact ⟨failsFirst_byteScript _ _, hdel⟩
+
+/-- The boundaries of the two new hypotheses are real.  (1) `Realises` for a failing stream needs "everything was handed
+    over before the failure": a reader that fails after the first byte of `a\nb` still gets its error counted once, but
+    the scanner hands on the lines of the DELIVERED prefix (`a`), not of the stream C06's `streamOf` names - a decoder
+    model that over-reports what was delivered before a failure would be caught here, not absorbed.  (2)
+    `fuel_irrelevant` needs the fuel bound: with less fuel than the reader's progress measure a `Scan()` of the model
+    stops with `.fuel` and the run differs from `run`. -/
+theorem seam_hypotheses_needed :
+    (failsFirst [⟨1, some .fail⟩] = true ∧
+      ¬ Realises 4 [⟨1, some .fail⟩] [97, 10, 98] true ∧
+      (Imm.run 4 [97, 10, 98] [⟨1, some .fail⟩]).1.map (·.2) = [[97]] ∧
+      (C06.runStream [120] [97, 10, 98] true).lines = [[97], [98]] ∧
+      (Imm.run 4 [97, 10, 98] [⟨1, some .fail⟩]).2.2.errs = (C06.runStream [120] [97, 10, 98] true).errs) ∧
+    (match ((Imm.init 2 ⟨[97, 10], [⟨0, none⟩, ⟨0, none⟩]⟩).scan 2).1 with | .fuel => true | _ => false) = true ∧
+    (Imm.scanAll 2 9 (Imm.init 2 ⟨[97, 10], [⟨0, none⟩, ⟨0, none⟩]⟩)).1 ≠ (Imm.run 2 [97, 10] [⟨0, none⟩, ⟨0, none⟩]).1 := by
+  refine ⟨⟨by decide, ?_, by decide, by decide, by decide⟩, by decide, by decide⟩
+  unfold Realises
+  decide
+
+/-- The destination sizes of all `Read` calls (op `rooms`: compared one by one with the sizes the real scanners pass
+    to the reader - the only place where the allocation sizes `bufSize`, `end - offset + bufSize`,
+    `maxi(maxBufLen, len - offset + maxBufLen/2)` become observable): the logging twins of `Model/C04Rooms.lean` are the
+    scanners themselves - dropping the log gives `scanAll` back, for every state, fuel and number of calls - and every
+    logged size is positive: no `Read` with an empty destination is ever issued, over the whole run (the per-state fact
+    was `imm_read_room_positive`), by either scanner. -/
+theorem read_destinations_logged (fuel k : Nat) :
+    (∀ (s : Imm) (log : List Nat), (s.scanAllL fuel k log).2 = s.scanAll fuel k) ∧
+    (∀ (s : Buf) (log : List Nat), (s.scanAllL fuel k log).2 = s.scanAll fuel k) ∧
+    (∀ s : Imm, 1 ≤ s.bufSize → ∀ r ∈ (s.scanAllL fuel k []).1, 0 < r) ∧
+    (∀ s : Buf, ∀ r ∈ (s.scanAllL fuel k []).1, 0 < r) :=
+  ⟨fun s log => scanAllL_snd fuel k s log, fun s log => bscanAllL_snd fuel k s log,
+   fun s hb => scanAllL_pos fuel k s [] hb (fun _ h => by cases h),
+   fun s => bscanAllL_pos fuel k s [] (fun _ h => by cases h)⟩
+
+example : ((Imm.init 2 ⟨[97, 98, 99, 10, 100], [⟨1, none⟩]⟩).scanAllL 9 9 []).1.reverse = [2, 1, 2, 2, 1] := by decide
+
+example : ((Buf.init 4 ⟨[97, 98, 99, 10, 100, 101, 102, 103, 104, 105], [⟨1, none⟩]⟩).scanAllL 9 9 []).1.reverse
+    = [4, 3, 4, 2, 2] := by decide
 
 end Rare.C04
